@@ -210,6 +210,17 @@ CLAIMED['C14'] = dict(
          'hand-assembled posterior uses the plain constructors as oracle',
     technique='TLA+ spec (Controller.tla) model-checked with TLC; spec->code replay with a hand-assembled differential oracle',
     design='6/C14')
+CLAIMED['C18'] = dict(
+    engine='InferenceIO',
+    text='InferenceIO.tla (extending PopLayout) states which dataset cell (variable name, individual) each vector position '
+         'belongs to and transcribes the name-mask mechanism of _format_chains; TLC checks the bijection and the absence of '
+         'name clashes for every composition. Each composition is replayed with integer-coded chains through '
+         'SamplingController._format_chains, sample_initial_parameters (dimension, seed reproducibility, provenance of the '
+         'individual-level draws, finite prior / population terms), OptimisationController.run with a stub optimiser, and '
+         'the dataset is read back through PosteriorPredictiveModel and compute_pointwise_loglikelihood.',
+    note='bounded as PopLayout; codes instead of real chains; read-back on centred non-covariate compositions',
+    technique='TLA+ spec (InferenceIO.tla extending PopLayout.tla) model-checked with TLC; spec->code replay with coded chains',
+    design='6/C18')
 
 NOT_YET = {
 }
